@@ -623,11 +623,10 @@ def str_as_bytes(m, a, c):
 
 @model("core::slice::<impl [T]>::get")
 def slice_get(m, a, c):
-    s = deref(a[0])
     i = a[1]
     if is_sym(i):
         raise Unsupported("symbolic slice index")
-    seq = s.ch if isinstance(s, Str) else (s.v if isinstance(s, VecM) else s.f)
+    seq = seq_of(a[0])
     if i < len(seq):
         return some(Ptr(seq, i))
     return none()
@@ -635,8 +634,7 @@ def slice_get(m, a, c):
 
 @model("core::slice::<impl [T]>::len")
 def slice_len(m, a, c):
-    s = deref(a[0])
-    return len(s.ch if isinstance(s, Str) else (s.v if isinstance(s, VecM) else s.f))
+    return len(seq_of(a[0]))
 
 
 def split_at_bytes(chs, n):
@@ -714,14 +712,25 @@ def vec_push(m, a, c):
     return UNIT
 
 
+def seq_of(v):
+    x = deref(v)
+    if isinstance(x, VecM):
+        return x.v
+    if isinstance(x, Str):
+        return x.ch
+    if isinstance(x, Arr):
+        return x.f
+    raise Unsupported("expected a slice-like value, got %r" % (x,))
+
+
 @model("Vec::is_empty", "core::slice::<impl [T]>::is_empty")
 def vec_is_empty(m, a, c):
-    return len(V(a[0]).v) == 0
+    return len(seq_of(a[0])) == 0
 
 
 @model("Vec::len")
 def vec_len(m, a, c):
-    return len(V(a[0]).v)
+    return len(seq_of(a[0]))
 
 
 @model("<Vec as Deref>::deref", "<Vec as DerefMut>::deref_mut")
@@ -1022,6 +1031,17 @@ def deref_special(m, v):
     raise Unsupported("deref of %r" % (v,))
 
 
+def index_special(m, v):
+    if isinstance(v, Str):
+        return v.ch
+    if isinstance(v, VecM):
+        return v.v
+    raise Unsupported("index into %r" % (v,))
+
+
+M["index_special"] = index_special
+
+
 def field_special(m, v, n, ty):
     if isinstance(v, Guard):
         inner = v.p.load()
@@ -1185,3 +1205,21 @@ def btreemap_insert(m, a, c):
     old = mp.d.get(k)
     mp.d[k] = [a[2]]
     return some(old[0]) if old else none()
+
+
+@model("Box::new")
+def box_new(m, a, c):
+    return Ptr([a[0]], 0)
+
+
+@model("<Box as Drop>::drop")
+def box_drop(m, a, c):
+    return UNIT
+
+
+@model("Vec::insert")
+def vec_insert(m, a, c):
+    if is_sym(a[1]):
+        raise Unsupported("symbolic Vec::insert index")
+    V(a[0]).v.insert(a[1], a[2])
+    return UNIT
